@@ -49,7 +49,7 @@ def make_case(spec, i):
     init = MISSING if r.random() < 0.08 else g.shape(info.kind, 3)
     ms = ModelState(info.kind, [init])
     ms.add_root(0, 0)
-    steps = gen.gen_program(g, ms, STEPS[spec["tier"]], p_read=0.5, depth=2)
+    steps = gen.gen_program(g, ms, STEPS[spec["tier"]], p_read=0.5, depth=2, p_iter_mut=0.08)
     return {"cls": info.name, "cfg": spec["cfg"], "res": [init], "roots": [[0, 0]], "steps": steps,
             "stratum": spec["stratum"], "oracle": {"results": True, "resource_strict": True}}
 
